@@ -514,6 +514,25 @@ fn gen_source(
                     { let l = text_line(rng, opts); b.text(l); }
                 }
             }
+            7 if listening.is_none() && rng.chance(1, 6) => {
+                // two stored tags whose names overlap inside one line (`OVn_` / `_LAPn` in `OVn_LAPn`): the leftmost is
+                // substituted, the other one stays stored and is substituted where it occurs on its own later
+                counter += 1;
+                let (ta, tb) = (format!("OV{counter}_"), format!("_LAP{counter}"));
+                if !pending_tags.iter().any(|t| t.starts_with(&ta) || ta.starts_with(t.as_str()) || t.starts_with(&tb) || tb.starts_with(t.as_str())) {
+                    b.head("", "-", format!("-TXTPP#tag {ta}"), false, false);
+                    b.head("", "-", "-TXTPP#write left".to_string(), true, false);
+                    b.text_nomerge("~".to_string());
+                    b.head("", "-", format!("-TXTPP#tag {tb}"), false, false);
+                    b.head("", "-", "-TXTPP#write right".to_string(), true, false);
+                    b.text_nomerge("~".to_string());
+                    b.head("", "", format!("x OV{counter}_LAP{counter} y"), false, false);
+                    b.head("", "", format!("z {tb} w"), false, false);
+                    p.sig.push("tags-overlap-in-line".into());
+                } else {
+                    { let l = text_line(rng, opts); b.text(l); }
+                }
+            }
             7 => {
                 // empty directive (comment)
                 let n = rng.below(3);
